@@ -14,7 +14,9 @@ parse_topics / parse_names / parse_options
 <Class>  (Filter, Util, Recorder, VideoIn, VideoOut, ImageIn, ImageOut, MQTTOut, REST, Webvis)
     A case is one *meaning* written in all the forms the docstring declares to be the same ("is the same as"): compact
     comma text, list of strings, list of structures (plain dicts as they arrive from JSON env vars / the CLI, and with
-    the optional members left out where the docstring marks them optional).  With N = cls.normalize_config, called
+    the optional members left out where the docstring marks them optional; VideoOut outputs that write video writer
+    parameters directly, '!crf=23', next to or instead of '!params={...}': additionally the options dict as the '!'
+    options parse, see VOUT_OPTS_DIRECT).  With N = cls.normalize_config, called
     directly as a classmethod (no filter is constructed), the oracle is, with structural `==` (dict key order ignored):
 
         every form v:     N(v) does not raise                       (the generator only emits documented-valid configs)
@@ -167,6 +169,10 @@ def option_kinds(name):
         ('us-west-2', [f'{name}=us-west-2']),
         ('1280+720C', [f'{name}=1280+720C']),
         ('a=b',       [f'{name}=a=b']),
+        (-5,        [f'{name}=-5']),                         # '!x=json': a negative JSON number at top level ...
+        (-0.5,      [f'{name}=-0.5']),
+        (-1000.0,   [f'{name}=-1e3']),                       # ... also in exponent notation (json.dumps(-1e3) is '-1000.0')
+        ([-1, {'k': -2.5}], [f'{name}=[-1,{{"k":-2.5}}]']),  # ... and nested inside containers
     ]
 
 
@@ -485,23 +491,52 @@ def elem_text(uri, opts, topic, ws):
     return uri + opt_text(opts, ws) + ('' if topic is None else (' ; ' if ws else ';') + topic)
 
 
-def elem_struct(key, uri, opts, topic, minimal):
+def opts_struct(opts, direct=False):
+    """The options dict the documentation puts next to the text options.  An option named 'params.<p>' is a video writer
+    parameter written directly as '!<p>=value' (VideoOut): the documented structure carries it as options.params[<p>],
+    merged with what an explicit '!params={...}' of the same output holds (keys are disjoint by construction).
+    `direct`: leave it where the text has it, options[<p>] (the options dict exactly as '!' options parse)."""
+
+    d = {}
+
+    for k, v, _ in opts:
+        if k.startswith('params.'):
+            if direct:
+                d[k[7:]] = v
+            else:
+                d['params'] = {**d.get('params', {}), k[7:]: v}
+        elif k == 'params':
+            d['params'] = {**d.get('params', {}), **clone(v)}
+        else:
+            d[k] = v
+
+    return d
+
+
+def has_direct(elems):
+    return any(k.startswith('params.') for _, o, _ in elems for k, _, _ in o)
+
+
+def elem_struct(key, uri, opts, topic, minimal, direct=False):
     d = {key: uri}
 
     if not (minimal and not topic):
         d['topic'] = topic or 'main'
     if not (minimal and not opts):
-        d['options'] = {k: v for k, v, _ in opts}
+        d['options'] = opts_struct(opts, direct)
 
     return d
 
 
-def elem_lists(uris, optsets, topics, nmax, unique_topics, small=None):
-    """All lists of 1..nmax elements; elements beyond the second come from the reduced pool `small`."""
+def elem_lists(uris, optsets, topics, nmax, unique_topics, small=None, extra=()):
+    """All lists of 1..nmax elements; elements beyond the second come from the reduced pool `small`.  `extra`: further
+    option sets (thorough tier); an element carrying one (first two uris, every topic) stands alone or in a pair, in
+    either position, with every element of `small`."""
 
     elems = [(u, o, t) for u in uris for o in optsets for t in topics]
     small = small or elems[:: max(1, len(elems) // 5)]
     out   = []
+
 
     for n in range(1, nmax + 1):
         pool = elems if n <= 2 else small
@@ -511,6 +546,13 @@ def elem_lists(uris, optsets, topics, nmax, unique_topics, small=None):
                 continue  # "All video sources must have unique topics"
 
             out.append(list(combo))
+
+    for e in [(u, o, t) for u in uris[:2] for o in extra for t in topics]:
+        out.append([e])
+
+        for pair in [p for x in small for p in ([e, x], [x, e])]:
+            if not unique_topics or (pair[0][2] or 'main') != (pair[1][2] or 'main'):
+                out.append(pair)
 
     return out
 
@@ -526,10 +568,16 @@ def build_elem_forms(key_field, key_elem, elems, ws, base_text, base_list, scala
     st[key_field]   = [elem_struct(key_elem, u, o, t, False) for u, o, t in elems]
     stm[key_field]  = [elem_struct(key_elem, u, o, t, True) for u, o, t in elems]
 
-    for cfg in (text, lst, st, stm):
+    forms = {'text': text, 'list': lst, 'struct': st, 'struct_min': stm}
+
+    if has_direct(elems):  # the options dict written the way the text writes it: writer parameters next to 'params'
+        forms['struct_direct'] = dict(base_list)
+        forms['struct_direct'][key_field] = [elem_struct(key_elem, u, o, t, False, True) for u, o, t in elems]
+
+    for cfg in forms.values():
         cfg.update(scalars)
 
-    return {'text': text, 'list': lst, 'struct': st, 'struct_min': stm}
+    return forms
 
 
 # --- VideoIn ----------------------------------------------------------------------------------------------------------------
@@ -548,14 +596,20 @@ VIN_OPTS = [
     [('resize', '1280+720', 'resize=1280+720')], [('expiration', 7200, 'expiration=7200')],
     [('region', 'us-west-2', 'region=us-west-2')],
 ]
+# negative JSON numbers as option values ('!x=json'), for options whose documentation states no range; first one: quick
+VIN_OPTS_NEG = [
+    [('loop', 3, 'loop=3'), ('maxfps', -1, 'maxfps=-1')],
+    [('maxfps', -0.5, 'maxfps=-0.5')], [('loop', -1, 'loop=-1')], [('maxfps', -1000.0, 'maxfps=-1e3')],
+]
 
 
 def spec_VideoIn(tier):
     quick = tier == 'quick'
-    lists = elem_lists(VIN_URIS[:4] if quick else VIN_URIS, VIN_OPTS[:6] if quick else VIN_OPTS, [None, '', 'c'],
-                       2 if quick else 4, True,
+    lists = elem_lists(VIN_URIS[:4] if quick else VIN_URIS, (VIN_OPTS[:6] if quick else VIN_OPTS) + VIN_OPTS_NEG[:1],
+                       [None, '', 'c'], 2 if quick else 4, True,
                        small=[(VIN_URIS[0], VIN_OPTS[1], None), (VIN_URIS[1], VIN_OPTS[2], 'c'),
-                              (VIN_URIS[3], VIN_OPTS[4], 'e'), (VIN_URIS[2], [], 'd')])
+                              (VIN_URIS[3], VIN_OPTS[4], 'e'), (VIN_URIS[2], [], 'd')],
+                       extra=[] if quick else VIN_OPTS_NEG[1:])
     dims  = [
         lists,
         SIMPLE_OUTPUTS,
@@ -586,13 +640,19 @@ IIN_OPTS = [
     [('loop', False, 'no-loop')], [('recursive', False, 'no-recursive')],
     [('recursive', True, 'recursive'), ('pattern', '*.jpg', 'pattern=*.jpg'), ('loop', 3, 'loop=3')],
 ]
+IIN_OPTS_NEG = [   # negative JSON numbers as option values; first one: quick
+    [('loop', True, 'loop'), ('maxfps', -0.5, 'maxfps=-0.5')],
+    [('loop', -1, 'loop=-1')], [('maxfps', -1000.0, 'maxfps=-1e3')],
+]
 
 
 def spec_ImageIn(tier):
     quick = tier == 'quick'
-    lists = elem_lists(IIN_URIS, IIN_OPTS[:6] if quick else IIN_OPTS, [None, '', 'archive'], 2 if quick else 4, True,
+    lists = elem_lists(IIN_URIS, (IIN_OPTS[:6] if quick else IIN_OPTS) + IIN_OPTS_NEG[:1], [None, '', 'archive'],
+                       2 if quick else 4, True,
                        small=[(IIN_URIS[0], IIN_OPTS[1], None), (IIN_URIS[1], IIN_OPTS[2], 'archive'),
-                              (IIN_URIS[2], [], 'd'), (IIN_URIS[0], IIN_OPTS[3], 'e')])
+                              (IIN_URIS[2], [], 'd'), (IIN_URIS[0], IIN_OPTS[3], 'e')],
+                       extra=[] if quick else IIN_OPTS_NEG[1:])
     dims  = [
         lists,
         SIMPLE_OUTPUTS,
@@ -622,13 +682,31 @@ VOUT_OPTS = [
     [('params', {'x264-params': {'keyint': 30, 'b': [1, 2]}, 'g': 30}, 'params={"x264-params": {"keyint": 30, "b": [1, 2]}, "g": 30}')],  # nested JSON with a member after the nested container
     [('fps', 25, 'fps=25')], [('segtime', 180, 'segtime=180')], [('segtime', 0.5, 'segtime=0.5')], [('bgr', True, 'bgr')],
 ]
+# Video writer parameters written directly as '!<p>=value' ('params.<p>' here, see opts_struct): docs/overview.md has
+# 'file://out_%Y%m%d_%H%M%S.mp4!segtime=1!fps=10!g=30', and tests/test_filter_video_out.py declares
+# 'rtsp://host:1234/path!fps=true!g=30;yet_another' the same as {'options': {'fps': True, 'params': {'g': 30}}}: a '!' option
+# that is not bgr/fps/segtime/params is a member of `params` ("parameter to pass on as keyword arguments of WriteGear()").
+# One output may carry both an explicit '!params={...}' and such members, before or after it; the documented structure
+# is the one `params` dict with all of them (names are disjoint here: which one wins a clash is not documented).  Writer
+# parameters have no documented range, 'bf=-1' (ffmpeg: automatic number of B-frames) is a negative JSON number.
+VOUT_OPTS_DIRECT = [
+    [('fps', True, 'fps=true'), ('params.g', 30, 'g=30')],                                   # first three: quick
+    [('params', {'g': 30}, 'params={"g": 30}'), ('params.crf', 23, 'crf=23')],
+    [('params.preset', 'ultrafast', 'preset=ultrafast'), ('params', {'crf': 23, 'g': 30}, 'params={"crf": 23, "g": 30}'),
+     ('params.bf', -1, 'bf=-1')],
+    [('params.bf', -1, 'bf=-1')], [('params', {'bf': -1, 'crf': 23}, 'params={"bf": -1, "crf": 23}')],
+    [('segtime', 1, 'segtime=1'), ('fps', 10, 'fps=10'), ('params.g', 30, 'g=30')],          # verbatim from docs/overview.md
+    [('params.vf', 'scale=1280:720', 'vf=scale=1280:720'), ('params', {'pix_fmt': 'yuv420p'}, 'params={"pix_fmt": "yuv420p"}')],
+]
 
 
 def spec_VideoOut(tier):
     quick = tier == 'quick'
-    lists = elem_lists(VOUT_URIS[:3] if quick else VOUT_URIS, VOUT_OPTS[:7] if quick else VOUT_OPTS, [None, '', 'c'],
+    lists = elem_lists(VOUT_URIS[:3] if quick else VOUT_URIS,
+                       (VOUT_OPTS[:7] if quick else VOUT_OPTS) + VOUT_OPTS_DIRECT[:3], [None, '', 'c'],
                        2 if quick else 4, False,
-                       small=[(VOUT_URIS[0], VOUT_OPTS[1], None), (VOUT_URIS[1], [], 'c'), (VOUT_URIS[2], VOUT_OPTS[2], 'c')])
+                       small=[(VOUT_URIS[0], VOUT_OPTS[1], None), (VOUT_URIS[1], [], 'c'), (VOUT_URIS[2], VOUT_OPTS[2], 'c')],
+                       extra=[] if quick else VOUT_OPTS_DIRECT[3:])
     dims  = [
         lists,
         SIMPLE_SOURCES,
@@ -1068,15 +1146,20 @@ def _check_config_case(name, cls, forms, explain=False):
 
 
 def comma_miscount(forms):
-    """Differential test for SIG_JSON_COMMA: splitting the comma text at ',' gives another number of items than the list
-    of strings the documentation declares to be the same thing has."""
+    """Differential test for SIG_JSON_COMMA: the tree's own comma splitting of the text gives another number of items than
+    the list of strings the documentation declares to be the same thing has."""
 
     text, lst = forms.get('text'), forms.get('list')
 
     if text is None or lst is None:
         return False
 
-    return any(isinstance(v, str) and isinstance(lst.get(k), list) and v.strip() and len(v.split(',')) != len(lst[k])
+    try:  # the splitter of the tree under test: the signature names a defect of the splitting, so ask the splitter
+        from openfilter.filter_runtime.utils import split_commas_maybe as split
+    except ImportError:
+        split = lambda v: v.split(',')
+
+    return any(isinstance(v, str) and isinstance(lst.get(k), list) and v.strip() and len(split(v)) != len(lst[k])
                for k, v in text.items())
 
 
@@ -1237,6 +1320,16 @@ def run(rep):
     rep.assumption('the parse_topics docstring example maps "main" twice and is refused by the code as non-unique; '
                    'only lists with unique sources and unique destinations count as valid')
     rep.assumption('inputs are deep-copied before each call: normalisers write into caller-owned lists (not part of C11)')
+    rep.assumption('negative JSON numbers (-5, -0.5, -1e3, nested [-1,{"k":-2.5}]) are option values of the "!x=json" grammar: '
+                   'generated in parse_options and, per class, for options whose documentation states no range (VideoIn / '
+                   'ImageIn maxfps and loop, VideoOut writer parameters such as bf=-1); ImageOut quality (1-100) / compression '
+                   '(0-9) and MQTTOut qos have documented non-negative ranges and get none')
+    rep.assumption('VideoOut: a "!" option other than bgr/fps/segtime/params is a video writer parameter (docs/overview.md '
+                   '"!segtime=1!fps=10!g=30"; tests/test_filter_video_out.py declares "!fps=true!g=30" the same as options '
+                   '{fps: True, params: {g: 30}}); one output may mix "!params={...}" with such parameters in any order, the '
+                   'equivalent structure is one params dict holding all of them (form struct), also written as the options '
+                   'dict exactly as the "!" options parse (form struct_direct); parameter names never clash with members of '
+                   'the explicit params (which one wins is not documented)')
 
     nd = 0
 
